@@ -96,6 +96,43 @@ Theorem C17_ids_fresh : forall g ops1 o ops2 out,
 Proof. exact ids_fresh. Qed.
 Print Assumptions C17_ids_fresh.
 
+(* Third wave.  "The supplied type system does not define": ONE TypeSystem object may serve several loads, and types
+   may be created in it between them (XmiLoadC17.session: loads of any documents, lenient or strict, from any source,
+   interleaved with create_type).  What the object served before leaves no trace: a load gives what the reader gives
+   for the types the object defines at that moment - so every statement above holds at any point of a session. *)
+Theorem C17_session_history_irrelevant : forall parse_flt s ops src b t d,
+  session parse_flt s (ops ++ [SLoad src b t d])
+  = (session parse_flt s ops ++ [load_xmi parse_flt (types_after s ops) b d])%list.
+Proof. exact session_last_load. Qed.
+Print Assumptions C17_session_history_irrelevant.
+(* a defined type stays defined, and a created type is defined from the next lookup on *)
+Theorem C17_session_known_stays_known : forall s ops e, unknown s e = false -> unknown (types_after s ops) e = false.
+Proof. exact known_stays_known. Qed.
+Print Assumptions C17_session_known_stays_known.
+Theorem C17_session_created_is_known : forall s ti ops n,
+  n = ti_name ti -> sch_find (types_after (create_type s ti) ops) n <> None.
+Proof. exact created_is_known. Qed.
+Print Assumptions C17_session_created_is_known.
+Theorem C17_session_lenient_is_filter : forall parse_flt s ops src t d, let s' := types_after s ops in
+  dropped_ids_okb s' d = true ->
+  session parse_flt s (ops ++ [SLoad src true t d])
+  = (session parse_flt s ops ++ [with_lenient true (load_xmi parse_flt s' false (drop_unknown s' d))])%list.
+Proof. exact session_lenient_is_filter. Qed.
+Print Assumptions C17_session_lenient_is_filter.
+Theorem C17_session_strict_raises : forall parse_flt s ops src t d st, let s' := types_after s ops in
+  pass1 parse_flt s' true p1_init d = Ok st -> existsb (unknown s') d = true ->
+  session parse_flt s (ops ++ [SLoad src false t d]) = (session parse_flt s ops ++ [Err ETypeNotFound])%list.
+Proof. exact session_strict_raises. Qed.
+Print Assumptions C17_session_strict_raises.
+(* once the missing types have been created, the flag no longer matters - although an earlier load through the same
+   object dropped or refused the structures of those types *)
+Theorem C17_session_all_defined_flag_irrelevant : forall parse_flt s ops src src' t t' d, let s' := types_after s ops in
+  forallb (fun e => negb (unknown s' e)) d = true ->
+  session parse_flt s (ops ++ [SLoad src true t d; SLoad src' false t' d])
+  = (session parse_flt s ops ++ [with_lenient true (load_xmi parse_flt s' false d); load_xmi parse_flt s' false d])%list.
+Proof. exact session_all_defined_flag_irrelevant. Qed.
+Print Assumptions C17_session_all_defined_flag_irrelevant.
+
 (* regression witnesses: the mechanisms before 779cf12, 1700993 and 32a3d1b violate the statements above *)
 Theorem C17_copy_handle_old_refuted : exists h n, h_lenient h = true /\ h_lenient (copy_handle_old h n) = false.
 Proof. exact copy_handle_old_refuted. Qed.
@@ -146,4 +183,18 @@ Example C17_later_ids_hold :
   end /\
   handed_out (load_xmi (fun _ => None) ex_ts true ex_doc2) [OpAdd; OpNewView; OpAdd] = Ok [[9]; [10; 3]; [11]] /\
   handed_out (load_xmi (fun _ => None) ex_ts false (drop_unknown ex_ts ex_doc2)) [OpAdd; OpNewView; OpAdd] = Ok [[9]; [10; 3]; [11]].
+Proof. vm_compute. repeat split; reflexivity. Qed.
+
+(* non-vacuity, third wave: the type system of the first example serves a lenient and a strict load, then x.y.Gone is
+   created in it, then it serves both again: dropped (member 7 only) / refused before, both members and the object 9
+   with its reference to 7 afterwards, under either flag *)
+Definition ti_gone : tinfo := mkTi "x.y.Gone" ["x.y.Gone"; "uima.cas.TOP"] [mkFd "ref" "ref" "uima.cas.TOP" None false].
+Example C17_session_holds :
+  existsb (unknown ex_ts) ex_doc = true /\ forallb (fun e => negb (unknown (create_type ex_ts ti_gone) e)) ex_doc = true /\
+  map (fun r => match r with
+                | Ok c => Some (map (fun nv => lv_members (snd nv)) (lc_views c), map fst (lc_objs c), lc_lenient c)
+                | _ => None end)
+      (session (fun _ => None) ex_ts [SLoad SrcStr true false ex_doc; SLoad SrcFile false false ex_doc; SCreate ti_gone;
+                                      SLoad SrcPath false true ex_doc; SLoad SrcStr true false ex_doc])
+  = [Some ([[7]], [0; 7], true); None; Some ([[7; 9]], [0; 7; 9], false); Some ([[7; 9]], [0; 7; 9], true)].
 Proof. vm_compute. repeat split; reflexivity. Qed.
